@@ -89,6 +89,11 @@ func upstreamStart() {
 				}
 			}
 			w.Header().Set("Content-Type", "text/plain; charset=utf-8")
+			if len(r.URL.Path)%2 == 0 {
+				// framed by Content-Length, as static file hosts do (the final read then carries the data
+				// together with io.EOF); otherwise large bodies go out chunked
+				w.Header().Set("Content-Length", strconv.Itoa(len(b)))
+			}
 			w.Write(b)
 		}))
 	})
